@@ -1,17 +1,18 @@
 (* C16 — the interface layer's reconnect bookkeeping at trace level: how many connections the stack
    opens on its own, when, and that a session ended by the application / a login failure / a
    conflict / a socket error stays down until the application asks again. *)
-From YV Require Import Common.Tac C16.C16Model C16.C16Proofs.
+From YV Require Import Common.Tac C16.C16Model C16.C16Proofs C16.C16Tac.
 
 Ltac finish_eq He :=
   compute_step; red_all; rewrite ?memN_nil, ?memN_single, ?N.eqb_refl;
-  split_ifs; prune He; repeat split; kill.
+  split_ifs; prune He; prune_hyp He; repeat split; kill; close_hyps.
 
 (* ---------- one step: the balance of automatic creations and the pending flag ---------- *)
 Lemma step_auto_balance c s e : inv s -> enabled c s e = true ->
   ((if ev_connect e then 0 else countb is_create (snd (step c s e)))
-   + b2n (recon (fst (step c s e))) =
-   b2n (recon s) + (if c_reconnect c then b2n (ev_reconnecting_error e) else 0))%nat.
+   + b2n (recon (fst (step c s e))) + b2n (rb (fst (step c s e))) =
+   b2n (recon s) + b2n (rb s) + (if c_reconnect c then b2n (ev_reconnecting_error e) else 0)
+   + b2n (ev_keys_result e))%nat.
 Proof.
   intros Hinv He. enum_step c s e Hinv He; try destruct k; try destruct crec; finish_eq He.
 Qed.
@@ -23,35 +24,38 @@ Lemma step_create_split c s e :
 Proof. destruct (ev_connect e); lia. Qed.
 
 Theorem auto_reconnect_count_thm : forall c h s tr h2 s2 tr2,
-  exec c init h = Some (s, tr) -> exec c s h2 = Some (s2, tr2) ->
-  (auto_creates c s h2 + b2n (recon s2) =
-   b2n (recon s) + (if c_reconnect c then count_ev ev_reconnecting_error h2 else 0))%nat /\
+  exec c (init c) h = Some (s, tr) -> exec c s h2 = Some (s2, tr2) ->
+  (auto_creates c s h2 + b2n (recon s2) + b2n (rb s2) =
+   b2n (recon s) + b2n (rb s) + (if c_reconnect c then count_ev ev_reconnecting_error h2 else 0)
+   + count_ev ev_keys_result h2)%nat /\
   countb is_create tr2 = (auto_creates c s h2 + req_creates c s h2)%nat.
 Proof.
   intros c h s tr h2 s2 tr2 Hx Hx2. pose proof (reach_inv c h s tr Hx) as Hinv.
   clear Hx h tr. revert h2 s s2 tr2 Hinv Hx2.
   apply (exec_ind_inv c (fun s h2 s2 tr2 =>
-    (auto_creates c s h2 + b2n (recon s2) =
-     b2n (recon s) + (if c_reconnect c then count_ev ev_reconnecting_error h2 else 0))%nat /\
+    (auto_creates c s h2 + b2n (recon s2) + b2n (rb s2) =
+     b2n (recon s) + b2n (rb s) + (if c_reconnect c then count_ev ev_reconnecting_error h2 else 0)
+     + count_ev ev_keys_result h2)%nat /\
     countb is_create tr2 = (auto_creates c s h2 + req_creates c s h2)%nat)).
   - intros s _. unfold count_ev, countb. cbn [auto_creates req_creates filter length]. split; [|reflexivity].
-    destruct (c_reconnect c); rewrite Nat.add_0_r; reflexivity.
+    destruct (c_reconnect c); rewrite !Nat.add_0_r; reflexivity.
   - intros s e h s2 o2 Hi He _ _ [IH1 IH2].
     pose proof (step_auto_balance c s e Hi He) as B.
-    cbn [auto_creates req_creates]. rewrite count_ev_cons, countb_app, IH2.
+    cbn [auto_creates req_creates]. rewrite !count_ev_cons, countb_app, IH2.
     revert B IH1. generalize (b2n (recon s)) (b2n (recon s2)) (b2n (recon (fst (step c s e))))
-      (b2n (ev_reconnecting_error e)) (countb is_create (snd (step c s e))).
-    intros n1 n2 n3 n4 n5 B IH1.
+      (b2n (ev_reconnecting_error e)) (countb is_create (snd (step c s e)))
+      (b2n (rb s)) (b2n (rb s2)) (b2n (rb (fst (step c s e)))) (b2n (ev_keys_result e)).
+    intros n1 n2 n3 n4 n5 n6 n7 n8 n9 B IH1.
     split; [destruct (c_reconnect c); lia|destruct (ev_connect e); lia].
 Qed.
 
-Theorem auto_reconnect_count_init_thm : forall c h s tr, exec c init h = Some (s, tr) ->
-  (auto_creates c init h + b2n (recon s) =
-   if c_reconnect c then count_ev ev_reconnecting_error h else 0)%nat /\
-  countb is_create tr = (auto_creates c init h + req_creates c init h)%nat.
+Theorem auto_reconnect_count_init_thm : forall c h s tr, exec c (init c) h = Some (s, tr) ->
+  (auto_creates c (init c) h + b2n (recon s) + b2n (rb s) =
+   (if c_reconnect c then count_ev ev_reconnecting_error h else 0) + count_ev ev_keys_result h)%nat /\
+  countb is_create tr = (auto_creates c (init c) h + req_creates c (init c) h)%nat.
 Proof.
   intros c h s tr Hx.
-  destruct (auto_reconnect_count_thm c [] init [] h s tr eq_refl Hx) as [A B].
+  destruct (auto_reconnect_count_thm c [] (init c) [] h s tr eq_refl Hx) as [A B].
   split; [exact A|exact B].
 Qed.
 
@@ -65,7 +69,7 @@ Lemma pending_facts c s e : inv s -> (enabled c s e && recon s) = true ->
      countb is_create (snd (step c s e)) = 0%nat /\ recon (fst (step c s e)) = true /\
      ns (fst (step c s e)) = NsDisconnected).
 Proof.
-  intros Hinv He. enum_step c s e Hinv He; destruct cfc, cfd; prune He;
+  intros Hinv He. enum_step c s e Hinv He; destruct cfc, cfd; prune He; prune_hyp He;
   (split; [reflexivity|]); (split; [reflexivity|]);
   (split; intros Hq; try discriminate Hq; try (exfalso; apply Hq; reflexivity));
   finish_eq He.
@@ -78,12 +82,14 @@ Proof.
   apply andb_prop in Ha. destruct Ha as [Ha _].
   apply andb_prop in Ha. destruct Ha as [Ha _].
   apply andb_prop in Ha. destruct Ha as [Ha _].
+  apply andb_prop in Ha. destruct Ha as [Ha _].
+  apply andb_prop in Ha. destruct Ha as [Ha _].
   rewrite Hr in Ha. cbn [negb orb] in Ha.
   apply andb_prop in Ha. destruct Ha as [H1 H2].
   split; [destruct (ns s); try discriminate H1; reflexivity|exact H2].
 Qed.
 
-Theorem pending_reconnect_thm : forall c h s tr, exec c init h = Some (s, tr) ->
+Theorem pending_reconnect_thm : forall c h s tr, exec c (init c) h = Some (s, tr) ->
   recon s = true ->
   ns s = NsDisconnected /\ enabled c s ELoop = true /\
   countb is_create (snd (step c s ELoop)) = 1%nat /\
@@ -105,18 +111,18 @@ Qed.
 
 (* ---------- down and nothing pending: stays down until the application asks ---------- *)
 Definition is_down (s : state) : bool :=
-  ns_eqb (ns s) NsDisconnected && negb (conn s) && negb (recon s).
+  ns_eqb (ns s) NsDisconnected && negb (conn s) && negb (recon s) && negb (rb s).
 
 Lemma down_step c s e : inv s -> (enabled c s e && is_down s && negb (ev_connect e)) = true ->
   is_down (fst (step c s e)) = true /\ countb is_create (snd (step c s e)) = 0%nat.
 Proof.
-  intros Hinv He. enum_step c s e Hinv He; destruct cfc, cfd; prune He; finish_eq He.
+  intros Hinv He. enum_step c s e Hinv He; destruct cfc, cfd; prune He; prune_hyp He; finish_eq He.
 Qed.
 
 Lemma ends_step c s e : inv s -> (enabled c s e && ends_session c s e) = true ->
   is_down (fst (step c s e)) = true /\ countb is_create (snd (step c s e)) = 0%nat.
 Proof.
-  intros Hinv He. enum_step c s e Hinv He; try destruct k; destruct crec, cfc, cfd; prune He; finish_eq He.
+  intros Hinv He. enum_step c s e Hinv He; try destruct k; destruct crec, cfc, cfd; prune He; prune_hyp He; finish_eq He.
 Qed.
 
 Lemma down_stays c : forall mid s s1 tr1, inv s -> is_down s = true ->
@@ -138,22 +144,25 @@ Proof.
 Qed.
 
 Lemma is_down_parts s : is_down s = true ->
-  ns s = NsDisconnected /\ conn s = false /\ recon s = false.
+  ns s = NsDisconnected /\ conn s = false /\ recon s = false /\ rb s = false.
 Proof.
-  unfold is_down. intros H. apply andb_prop in H. destruct H as [H H3].
+  unfold is_down. intros H. apply andb_prop in H. destruct H as [H H4].
+  apply andb_prop in H. destruct H as [H H3].
   apply andb_prop in H. destruct H as [H1 H2].
   repeat split.
   - destruct (ns s); try discriminate H1; reflexivity.
   - destruct (conn s); [discriminate H2|reflexivity].
   - destruct (recon s); [discriminate H3|reflexivity].
+  - destruct (rb s); [discriminate H4|reflexivity].
 Qed.
 
 Theorem session_end_stays_down_thm : forall c h s tr e mid s1 tr1,
-  exec c init h = Some (s, tr) ->
+  exec c (init c) h = Some (s, tr) ->
   ends_session c s e = true ->
   exec c s (e :: mid) = Some (s1, tr1) ->
   count_ev ev_connect mid = 0%nat ->
-  ns s1 = NsDisconnected /\ conn s1 = false /\ recon s1 = false /\ countb is_create tr1 = 0%nat.
+  ns s1 = NsDisconnected /\ conn s1 = false /\ recon s1 = false /\ rb s1 = false /\
+  countb is_create tr1 = 0%nat.
 Proof.
   intros c h s tr e mid s1 tr1 Hx Hend Hm Hc.
   pose proof (reach_inv c h s tr Hx) as Hi.
@@ -162,7 +171,7 @@ Proof.
   destruct (ends_step c s e Hi HE) as [D1 D2].
   pose proof (step_inv c s e Hi He) as Hi1.
   destruct (down_stays c mid _ _ _ Hi1 D1 Hm Hc) as [I1 I2].
-  destruct (is_down_parts s1 I1) as [A [B C]].
+  destruct (is_down_parts s1 I1) as [A [B [C D]]].
   repeat split; auto. rewrite countb_app, D2, I2. reflexivity.
 Qed.
 
@@ -174,16 +183,80 @@ Definition hist_sock_error_on_reconnect : list event :=
   [EConnectReq; EDispConnected; EStreamError KAck; ELoop; ESockError; ELoop].
 Definition hist_disconnect_on_reconnect : list event :=
   [EConnectReq; EDispConnected; EStreamError KAck; ELoop; EDisconnectReq; ELoop].
-Definition cfg_fixed_r : cfg := mkCfg true false true true true.
+Definition cfg_fixed_r : cfg := mkCfg true false true true true false.
 
 Example reconnect_once_after_failed_attempt :
-  exists s tr, exec cfg_fixed_r init hist_sock_error_on_reconnect = Some (s, tr) /\
-    auto_creates cfg_fixed_r init hist_sock_error_on_reconnect = 1%nat /\
+  exists s tr, exec cfg_fixed_r (init cfg_fixed_r) hist_sock_error_on_reconnect = Some (s, tr) /\
+    auto_creates cfg_fixed_r (init cfg_fixed_r) hist_sock_error_on_reconnect = 1%nat /\
     countb is_create tr = 2%nat /\ ns s = NsDisconnected /\ recon s = false.
 Proof. eexists. eexists. vm_compute. repeat split; reflexivity. Qed.
 
 Example disconnect_request_wins_over_reconnect :
-  exists s tr, exec cfg_fixed_r init hist_disconnect_on_reconnect = Some (s, tr) /\
-    auto_creates cfg_fixed_r init hist_disconnect_on_reconnect = 1%nat /\
+  exists s tr, exec cfg_fixed_r (init cfg_fixed_r) hist_disconnect_on_reconnect = Some (s, tr) /\
+    auto_creates cfg_fixed_r (init cfg_fixed_r) hist_disconnect_on_reconnect = 1%nat /\
     ns s = NsDisconnected /\ recon s = false.
 Proof. eexists. eexists. vm_compute. repeat split; reflexivity. Qed.
+
+Ltac solve_in_r := solve_in.
+
+(* ---------- the control layer's reboot: pending until the loop delivers the DISCONNECTED, then one
+   connection, passive off, nothing left to upload ---------- *)
+Lemma reboot_facts c s e : inv s -> (enabled c s e && rb s) = true ->
+  ns s = NsDisconnected /\ enabled c s ELoop = true /\ um s = false /\ ud s = false /\ recon s = false /\
+  (e = ELoop ->
+     countb is_create (snd (step c s e)) = 1%nat /\ rb (fst (step c s e)) = false /\
+     psv (fst (step c s e)) = false /\ um (fst (step c s e)) = false /\ ud (fst (step c s e)) = false /\
+     ns (fst (step c s e)) = NsConnecting /\
+     In (OProbe 2 (PDisconnected (hd RNone (dq s)))) (snd (step c s e)) /\
+     In (OProbe 3 (PDisconnected (hd RNone (dq s)))) (snd (step c s e)) /\
+     pth (fst (step c s e)) = false /\ pq (fst (step c s e)) = []) /\
+  (e <> ELoop ->
+     countb is_create (snd (step c s e)) = 0%nat /\ rb (fst (step c s e)) = true /\
+     ns (fst (step c s e)) = NsDisconnected).
+Proof.
+  intros Hinv He.
+  destruct e; enum_full c Hinv; red_in He; try discriminate He;
+  destruct cfc, cfd; prune He; prune_hyp He;
+  (split; [reflexivity|]); (split; [reflexivity|]); (split; [reflexivity|]); (split; [reflexivity|]);
+  (split; [reflexivity|]);
+  (split; intros Hq; try discriminate Hq; try (exfalso; apply Hq; reflexivity));
+  compute_step; red_all; rewrite ?memN_nil, ?memN_single, ?N.eqb_refl; split_ifs; prune He;
+  repeat split; kill; try solve_in_r.
+Qed.
+
+Lemma reboot_loop_enabled c s : inv s -> rb s = true -> enabled c s ELoop = true.
+Proof.
+  intros [Hs [Ha _]] Hr. unfold aux_ok in Ha.
+  apply andb_prop in Ha. destruct Ha as [Ha _].
+  apply andb_prop in Ha. destruct Ha as [_ Ha].
+  rewrite Hr in Ha. cbn [negb orb] in Ha.
+  apply andb_prop in Ha. destruct Ha as [Ha _].
+  apply andb_prop in Ha. destruct Ha as [Ha _].
+  apply andb_prop in Ha. destruct Ha as [Ha _].
+  apply andb_prop in Ha. destruct Ha as [_ H2]. exact H2.
+Qed.
+
+Theorem pending_reboot_thm : forall c h s tr, exec c (init c) h = Some (s, tr) ->
+  rb s = true ->
+  ns s = NsDisconnected /\ enabled c s ELoop = true /\ um s = false /\ ud s = false /\ recon s = false /\
+  (let s1 := fst (step c s ELoop) in
+   countb is_create (snd (step c s ELoop)) = 1%nat /\ rb s1 = false /\ psv s1 = false /\ um s1 = false /\
+   ud s1 = false /\ ns s1 = NsConnecting /\
+   In (OProbe 2 (PDisconnected (hd RNone (dq s)))) (snd (step c s ELoop)) /\
+   In (OProbe 3 (PDisconnected (hd RNone (dq s)))) (snd (step c s ELoop)) /\
+   pth s1 = false /\ pq s1 = []) /\
+  (forall e, enabled c s e = true -> e <> ELoop ->
+     countb is_create (snd (step c s e)) = 0%nat /\ rb (fst (step c s e)) = true /\
+     ns (fst (step c s e)) = NsDisconnected).
+Proof.
+  intros c h s tr Hx Hr. pose proof (reach_inv c h s tr Hx) as Hinv.
+  pose proof (reboot_loop_enabled c s Hinv Hr) as Hl.
+  assert (HL : (enabled c s ELoop && rb s) = true) by (rewrite Hl, Hr; reflexivity).
+  destruct (reboot_facts c s ELoop Hinv HL) as [F1 [F2 [F3 [F4 [F5 [P _]]]]]].
+  split; [exact F1|]. split; [exact F2|]. split; [exact F3|]. split; [exact F4|]. split; [exact F5|].
+  split; [exact (P eq_refl)|].
+  intros e He Hne.
+  assert (HE : (enabled c s e && rb s) = true) by (rewrite He, Hr; reflexivity).
+  destruct (reboot_facts c s e Hinv HE) as [_ [_ [_ [_ [_ [_ Q]]]]]]. exact (Q Hne).
+Qed.
+
